@@ -278,6 +278,13 @@ struct CRing
             model.clear();
             break;
         }
+        // a consumer operation only moves the tail, a producer operation only the head (the basis of zero-copy
+        // producers/consumers that hold an index across the other side's operation)
+        if ((op == OP_GETC || op == OP_READ || op == OP_MOVE_TAIL || op == OP_MOVE_TAIL_ONE) && r.head != r0.head)
+            CR_FAIL("consumer-op-moved-head", on, k, "head %u -> %u", r0.head, r.head);
+        if ((op == OP_PUTC || op == OP_WRITE || op == OP_MOVE_HEAD || op == OP_MOVE_HEAD_ONE) && r.tail != r0.tail)
+            CR_FAIL("producer-op-moved-tail", on, k, "tail %u -> %u", r0.tail, r.tail);
+        VF_OK("cring: read/getc/move_tail leave head unchanged, write/putc/move_head leave tail unchanged");
         if (memcmp(buf.p, expect.data(), size) != 0)
         {
             unsigned at = 0;
@@ -839,6 +846,70 @@ static void cyc_run(uint64_t idx)
 }
 VF_SUITE(cyclic, cyc_count, cyc_run)
 
+// ---- zero-copy producer / consumer across the other side's operation (C ring)
+// producer: takes the head index, (consumer reads meanwhile), fills the reserved slots at the recorded index, commits
+// with ring_move_head. consumer: takes the tail index, (producer writes meanwhile), looks at the slots, releases.
+static uint64_t zc_count() { return vf::thorough() ? 30 : 14; }
+static void zc_run(uint64_t idx)
+{
+    unsigned size = 2 + (unsigned)idx;
+    vf::cls("cring-zero-copy");
+    uint8_t ctr = 0xF1;
+    uint64_t n = 0;
+    for (unsigned start = 0; start < size; start++)         // head == tail == start, then `pre` bytes stored
+        for (unsigned pre = 0; pre <= size - 1; pre++)
+            for (unsigned rd = 0; rd <= pre + 1; rd++)      // how much the consumer reads meanwhile (incl. draining and over-long)
+                for (unsigned m = 1; m <= size - 1 - pre + (rd < pre ? rd : pre); m += (size > 9 ? 3 : 1)) // reserved block, fits after the read
+                {
+                    vf::Exact buf(nullptr, size, 3);
+                    ring_head r;
+                    ring_init(&r, size);
+                    ring_move_head(&r, start);
+                    ring_move_tail(&r, start);
+                    std::deque<uint8_t> model;
+                    for (unsigned i = 0; i < pre; i++)
+                    {
+                        uint8_t b = ctr++;
+                        ring_putc(&r, buf.c(), (char)b);
+                        model.push_back(b);
+                    }
+                    unsigned reserved = r.head; // producer reserves at the head ...
+                    std::vector<char> out(rd + 1);
+                    int got = ring_read(&r, buf.cc(), out.data(), rd); // ... the consumer reads ...
+                    for (int i = 0; i < got; i++)
+                    {
+                        if ((uint8_t)out[i] != model.front())
+                            vf::fail("cring:zero-copy:read:data", "size=%u start=%u stored=%u read(%u): byte %d is %02x, reference %02x", size, start, pre, rd, i, (uint8_t)out[i],
+                                     model.front());
+                        model.pop_front();
+                    }
+                    if (m > size - 1 - model.size())
+                        continue;
+                    for (unsigned i = 0; i < m; i++) // ... the producer fills at the recorded index and commits
+                    {
+                        uint8_t b = ctr++;
+                        buf.p[(reserved + i) % size] = b;
+                        model.push_back(b);
+                    }
+                    ring_move_head(&r, m);
+                    if (ring_avail(&r) != model.size())
+                        vf::fail("cring:zero-copy:avail", "size=%u start=%u stored=%u read(%u) commit(%u): avail=%u reference=%zu", size, start, pre, rd, m, ring_avail(&r), model.size());
+                    std::vector<char> back(size);
+                    int n2 = ring_read(&r, buf.cc(), back.data(), size);
+                    if ((size_t)n2 != model.size())
+                        vf::fail("cring:zero-copy:read:count", "size=%u start=%u stored=%u read(%u) commit(%u): final read = %d, reference %zu", size, start, pre, rd, m, n2, model.size());
+                    for (int i = 0; i < n2; i++)
+                        if ((uint8_t)back[i] != model[i])
+                            vf::fail("cring:zero-copy:data", "size=%u start=%u stored=%u, head index %u recorded, read(%u)=%d, %u bytes filled at the recorded index and committed: "
+                                                              "byte %d reads back %02x, written %02x",
+                                     size, start, pre, reserved, rd, got, m, i, (uint8_t)back[i], model[i]);
+                    VF_OK("cring: zero-copy producer (reserve at head, concurrent read, fill, commit) reads back intact");
+                    n++;
+                }
+    vf::count_bulk(n, n);
+}
+VF_SUITE(cring_zero_copy, zc_count, zc_run)
+
 // ============================================================================================
 // 4. histories in which re-initialising members are ordinary operations
 //    (resize up/down/same, reset, clear on igris::ring; ring_init with another size/buffer on the C ring;
@@ -1124,6 +1195,8 @@ struct CharHist
             vf::fail(room == 0 ? "ring<char>:write:full-not-rejected" : "ring<char>:write:count", "%s | write(%u) = %zu, room was %zu of capacity %u", hist.c_str(), k, w, room, n);
         if (room == 0 && (rg->head_index() != h0 || rg->tail_index() != t0))
             vf::fail("ring<char>:write:full-not-rejected", "%s | rejected write moved head/tail", hist.c_str());
+        if (rg->tail_index() != t0)
+            vf::fail("ring<char>:write-moved-tail", "%s | write(%u) moved the tail %d -> %d", hist.c_str(), k, t0, rg->tail_index());
         if (room == 0)
             VF_OK("ring<char> history: a full ring rejects writes, state unchanged");
         for (size_t i = 0; i < w; i++)
@@ -1133,9 +1206,13 @@ struct CharHist
     {
         vf::Exact dst(nullptr, k, 0);
         size_t av = model.size();
+        int h0 = rg->head_index();
         size_t got = rg->read(dst.c(), k);
         if (got != (k < av ? k : av))
             vf::fail("ring<char>:read:count", "%s | read(%u) = %zu, avail was %zu", hist.c_str(), k, got, av);
+        if (rg->head_index() != h0)
+            vf::fail("ring<char>:read-moved-head", "%s | read(%u) moved the head %d -> %d", hist.c_str(), k, h0, rg->head_index());
+        VF_OK("ring<char> history: read leaves head_index unchanged, write leaves tail_index unchanged");
         for (size_t i = 0; i < got; i++)
         {
             if (dst.p[i] != model.front())
@@ -1421,6 +1498,11 @@ extern "C" void vf_setup()
           "cring history: ring_init with another size on a used ring gives an empty ring of that size",
           "cyclic history: size(), [i], counter range == reference after every op incl. resize",
           "ring<T> history: push of a reference to the ring's own element stores that element",
+          "cring: read/getc/move_tail leave head unchanged, write/putc/move_head leave tail unchanged",
+          "ring<char> history: read leaves head_index unchanged, write leaves tail_index unchanged",
+          "cring: zero-copy producer (reserve at head, concurrent read, fill, commit) reads back intact",
+          "unwritten slots: unbounded_array(n) / resize(n) value-initialise every element", "unwritten slots: cyclic_buffer first lap evicts T{}, [i] beyond the pushes is T{}",
+          "unwritten slots: igris::ring slots and get_last past the written part are T{}",
           "large cring: size, index range, avail/room/empty/full == reference", "large cring: live content == position-dependent pattern",
           "large cring: bulk read returns the written bytes in order", "large cring: bulk head/tail moves from every boundary slot with every boundary bias",
           "large ring<char>: room()==n when empty, avail/room == reference", "large ring<T>: counts, distance, tail/last/get_last at boundary offsets == reference",
